@@ -79,3 +79,18 @@ Proof.
   intros s. unfold x_sequential. rewrite async_schedule_independent.
   vm_compute. reflexivity.
 Qed.
+
+(* non-vacuity of c27_mutation_serial: the two root fields of `{ a { n } b { n } }` form two contiguous blocks *)
+Definition x_ab_sels : list rsel :=
+  [RsField None (xs "a") [] [] (TNamed (xs "A")) x_sub; RsField None (xs "b") [] [] (TNamed (xs "A")) x_sub].
+
+Lemma c27_nonvacuous :
+  exists visited groups,
+    ex_collect (ex_cfuel x_ab_cx) x_ab_cx (xs "Query") [] x_ab_sels [] [] = Some (visited, groups) /\
+    map fst groups = [xs "a"; xs "b"] /\
+    map (fun b => (fst b, map (fun c => (ec_obj c, ec_field c)) (snd b)))
+        (loop_blocks x_ab_world
+           (fun key fdef f0 rest => ex_field 10 x_ab_cx [PsKey key] (xs "Query") [] 0%N fdef f0 rest)
+           (ex_schema x_ab_cx) (xs "Query") groups []) =
+    [(xs "a", [(0%N, xs "a"); (1%N, xs "n")]); (xs "b", [(0%N, xs "b"); (2%N, xs "n")])].
+Proof. eexists. eexists. split; [vm_compute; reflexivity|]. split; vm_compute; reflexivity. Qed.
